@@ -358,10 +358,30 @@ def eval_bool(t, env):
             x = br[0]
         if isinstance(x, tuple) and x and x[0] == 'agg' and x[2] in VARIANT_INDEX:
             return VARIANT_INDEX[x[2]]
+        if br is not None:
+            # `?` on a value whose own discriminant is known: Ok -> Continue, Err -> Break; Some -> Continue, None -> Break
+            known = env.get(('discr', strip_sites(x)))
+            if known is not None:
+                c = CALLEES.get(t[1][1])
+                self_ty = ' '.join([c.self_ty or ''] + list(c.args)) if c is not None else ''
+                if 'option::Option' in self_ty:
+                    return 0 if known == 1 else 1
+                if 'result::Result' in self_ty:
+                    return known
         if isinstance(x, tuple) and x and x[0] == 'phi':
             vals = {eval_bool(('discr', a if br is None else ('call', t[1][1], (a,), None)), env) for a in x[1]}
             if len(vals) == 1:
                 return vals.pop()
+        if br is None and isinstance(x, tuple) and x and x[0] == 'vfield':
+            # the payload of an explicitly built wrapper: discr(Try::branch(Ok(v)).Continue.0) == discr(v)
+            x2 = detry(x)
+            if x2 != x and isinstance(x2, tuple) and x2:
+                if x2[0] == 'agg' and x2[2] in VARIANT_INDEX:
+                    return VARIANT_INDEX[x2[2]]
+                if x2[0] == 'phi':
+                    vals = {eval_bool(('discr', a), env) for a in x2[1]}
+                    if len(vals) == 1:
+                        return vals.pop()
         return None
     if k == 'vfield' and t[2] == 'Continue':
         d = detry(t)
